@@ -753,6 +753,7 @@ func (w *World) act(i int) {
 	var rv1 []types.Transaction
 	var rv2 []types.V2Transaction
 	for _, pt := range pts {
+		w.apiTxn(pt)
 		if err := n.submit(pt); err != nil {
 			// the wallet built it against this very node: it must be valid
 			w.stats.Inc("workload.rejected." + pt.Kind)
